@@ -307,6 +307,9 @@ def run_task(task):
     return acc
 
 
+LAST_POINTS = [0]
+
+
 def run_large(task, acc):
     """Large outputs: a non-blocking peer writer refills the kernel buffer at scheduling points.
     The kernel chooses the chunking here, so this part is NOT called exhaustive: the default schedule
@@ -317,7 +320,7 @@ def run_large(task, acc):
     for skip_at in [None] + list(range(60)):
         obs, viol = run_config_large(Chooser(()), task, data, skip_at)
         acc.execs += 1
-        acc.transitions += obs.get('points', 0)
+        acc.transitions += max(1, LAST_POINTS[0])
         acc.outcomes['large:%s' % obs['end']] += 1
         acc.nontrivial += 1
         if viol:
@@ -406,7 +409,7 @@ def run_config_large(ch, task, data, skip_at=None):
             viol = ('lost' if len(got) < len(data) else 'extra',
                     'large output: %d of %d bytes returned, first difference at %d'
                     % (len(got), len(data), next((i for i in range(min(len(got), len(data))) if got[i] != data[i]), min(len(got), len(data)))))
-        obs['points'] = 0
+        LAST_POINTS[0] = env.points
     except E.Hang as h:
         obs['end'] = 'hang'
         viol = ('hang', str(h))
